@@ -481,11 +481,26 @@ namespace Pistache::Http
 
             if (size == 0)
             {
-                // the last-chunk is followed by the CRLF that ends the chunked body
-                if (cursor.remaining() < 2)
-                    return Incomplete;
-                cursor.advance(2);
-                return Final;
+                // the last-chunk is followed by optional trailer fields, each a line of its own,
+                // and by the CRLF that ends the chunked body
+                for (;;)
+                {
+                    if (cursor.remaining() < 2)
+                        return Incomplete;
+                    if (cursor.eol())
+                    {
+                        cursor.advance(2);
+                        return Final;
+                    }
+
+                    // a trailer field: skipped, once its line is complete
+                    StreamCursor::Revert revert(cursor);
+                    while (!cursor.eol())
+                        if (!cursor.advance(1))
+                            return Incomplete;
+                    cursor.advance(2);
+                    revert.ignore();
+                }
             }
 
             StreamCursor::Token chunkData(cursor);
